@@ -197,7 +197,8 @@ private theorem cloneDirs_frame (cfg : Cfg) (h : Heap) (l : List (String × Addr
     · exact (cloneDir_frame cfg h _).trans (ih _)
     · exact ih h
 
-/-- PARTIAL form of `CloneFramesSource`: the copying phase of `Schema.clone` (`copy.copy` / `_clone_type` of every
+/-- SUBSUMED (kept for name stability) by the full `clone_frames_source` (Props/C14_frames.lean): the heal round announced as missing below is covered there.
+    PARTIAL form of `CloneFramesSource`: the copying phase of `Schema.clone` (`copy.copy` / `_clone_type` of every
     type and directive) writes no object of the source, in both variants of the code. What is missing for the full
     statement: the heal round that follows (`_replace_types_and_directives` → `fix_type_references`) writes only
     objects owned by the clone — true for `deepClone` (tied by the correspondence and the `decide` instance
